@@ -58,6 +58,31 @@ theorem C02_query_program (ord : Order) (ho : OrderOK ord) (dfs : Call → State
   rw [this]
   exact (py.map _).trans pz
 
+/-- `C02_query_any_body`: the same composition for ANY body goal whose textbook evaluation from `s1` is finite (`evalRef … = some xs`:
+    conjunctions, `conde`, `fresh`, relation calls in terminating modes — member / append / … on bounded lists — `dfs` variants): the
+    engine terminates on the whole query goal and delivers, as a multiset, the reified states of the body's answers.  (Committed
+    choice is outside `evalRef`.) -/
+theorem C02_query_any_body (ord : Order) (ho : OrderOK ord) (dfs : Call → State → State × G) (pf M N : Nat)
+    (body : G) (qv : Term) (qs : List Term) (s0 s1 : State) (xs : List State)
+    (h1 : (liftRes fun st => postAtom ord st (.eq qv (Term.ofList qs))) s0 = some s1)
+    (hx : evalRef dfs N body s1 = some xs)
+    (hs : ∀ s ∈ xs, s.dstore = [] ∧ s.panic = none ∧ (∀ c ∈ s.store, c.2.isFD = false) ∧ Solved s.σ ∧
+      (apply s.σ qv).size ≤ forceFuel) :
+    ∃ k zs, drainF (solveAt dfs (pf + 2) (M + 2)) k
+        (solveAt dfs (pf + 2) (M + 2) (queryG ord qv qs [body]) s0) = some zs ∧
+      (xs.map fun s => reifyState ord s qv).Perm zs := by
+  obtain ⟨ys, hys, py⟩ := ref_perm dfs (pf + 2) (M + 1) _ _ s1 xs hx (M + 1)
+  have hbody : AnsS (solveAt dfs (pf + 2) (M + 2)) (solveAt dfs (pf + 2) (M + 2) (Goal.conjOfList [body]) s1) ys := by
+    show AnsS _ (solveAt dfs (pf + 2) (M + 2) (mkConj body .succeed) s1) ys
+    exact ansS_mkConj dfs (pf + 2) (M + 1) hys (ansB_id dfs (pf + 2) (M + 1))
+  have hR : ∀ s ∈ ys, AnsS (solveAt dfs (pf + 2) (M + 2)) (solveAt dfs (pf + 2) (M + 2) (reifyG ord qv) s) [reifyState ord s qv] := by
+    intro s hsy
+    obtain ⟨hd, hp, hst, hsol, hsz⟩ := hs s (py.mem_iff.2 hsy)
+    exact @reifyG_tree Mode.strict ord ho dfs pf M s hd hp hst qv (forceAns_finishes dfs ord s hsol hd hp qv hsz)
+  have hq := query_compose (ord := ord) dfs (pf + 2) (M + 1) qv qs [body] s0 s1 ys h1 hbody hR
+  obtain ⟨k, zs, hk, pz⟩ := drain_perm _ (topOK_solveAt dfs (pf + 2) (M + 1)) hq
+  exact ⟨k, zs, hk, (py.map _).trans pz⟩
+
 /-- a body with no surviving path: the query has no answer; with one: exactly one -/
 theorem C02_query_count (ord : Order) (ho : OrderOK ord) (dfs : Call → State → State × G) (pf M : Nat)
     (p : FProg) (qv : Term) (qs : List Term) (s0 s1 : State)
@@ -327,6 +352,13 @@ example : ∃ k zs, drainF (solveAt (defs Order.default) 4 4) k
         ts = [Term.var 0].map (apply γ)) :=
   C02_query_exact_checked Order.default ⟨fun _ => .refl _, fun _ => .refl _, fun _ => .refl _⟩ (defs Order.default) 2 2 2 exP
     ⟨trivial, trivial, trivial, trivial⟩ (.var 1) [.var 0] (by decide +kernel)
+/-- `C02_query_any_body` at work: `|x| { member(x, [1, 2, 1]) }` — the engine on the whole query goal delivers one answer per
+    matching position (`C24_member_one_per_position`), each reified -/
+example : (drainF (solveAt (defs Order.default) 4 4) 400
+    (solveAt (defs Order.default) 4 4 (queryG Order.default (.var 1) [.var 0]
+      [.call ⟨.member, [.var 0, Term.ofList [Term.num 1, Term.num 2, Term.num 1]], false⟩]) (State.empty 2))).map
+      (fun zs => zs.map fun s => (s.panic.isSome, apply s.σ (.var 0))) =
+    some [(false, Term.num 1), (false, Term.num 2), (false, Term.num 1)] := by decide +kernel
 end Examples
 
 end Pv
